@@ -52,7 +52,8 @@ class MultitaskKernel(Kernel):
             # Broadcast (rather than repeat) against the data batch: the task covariance may carry a batch shape itself
             batch_shape = torch.broadcast_shapes(x1.shape[:-2], covar_i.shape[:-2])
             covar_i = covar_i.expand(*batch_shape, *covar_i.shape[-2:])
-        covar_x = to_linear_operator(self.data_covar_module.forward(x1, x2, **params))
+        # call the data kernel (not its forward) so that its own active_dims are honoured
+        covar_x = to_linear_operator(self.data_covar_module(x1, x2, **params))
         res = KroneckerProductLinearOperator(covar_x, covar_i)
         return res.diagonal(dim1=-1, dim2=-2) if diag else res
 
